@@ -11,7 +11,7 @@ Case ==
    w        |-> W,
    uid      |-> cfg.uid, mlen |-> cfg.mlen, served |-> cfg.served, enc |-> cfg.enc, sid |-> cfg.sid,
    unord    |-> cfg.unord, sig |-> cfg.sig, tr |-> cfg.tr, sni |-> cfg.sni,
-   ustate   |-> env.ustate, off |-> env.off, rightKey |-> env.rightKey, cache |-> env.cache,
+   ustate   |-> env.ustate, off |-> env.off, rightKey |-> env.rightKey, cache |-> env.cache, tick |-> env.tick,
    admin    |-> env.conf.admin, nb |-> env.conf.nb, probe |-> env.probe,
    tampers  |-> tampers,
    verdict  |-> Expected(pkt),
